@@ -313,6 +313,14 @@ func (ex *Exec) execInstr(fr *Frame, st *State, in ssa.Instruction) {
 		}
 		l := ex.resolve(p)
 		ex.nilCheck(st, p, in, "store")
+		if isElemOrFieldStore(in) {
+			// at store[#k]: $0 the value stored, $1 the index (element stores)
+			vars := map[string]*Value{"$0": v}
+			if ia, ok := in.Addr.(*ssa.IndexAddr); ok {
+				vars["$1"] = ex.eval(fr, st, ia.Index)
+			}
+			ex.atObligations(fr, st, "store", in, vars)
+		}
 		if len(l.path) == 0 && l.local != nil {
 			// whole-cell store keeps static side info (pointer paths, closures)
 			st.locals[l.local] = v
@@ -590,6 +598,17 @@ func (ex *Exec) execUnOp(fr *Frame, st *State, in *ssa.UnOp) *Value {
 		if g, ok := in.X.(*ssa.Global); ok {
 			if v := ex.loadGlobal(st, g); v != nil {
 				return v
+			}
+		}
+		// element of a package-level table of constants that is never written: its value is known
+		if ia, ok := in.X.(*ssa.IndexAddr); ok {
+			if g, ok := ia.X.(*ssa.Global); ok {
+				if _, isArr := deref(g.Type()).Underlying().(*types.Array); isArr {
+					if v := ex.prog.constGlobal(ex, g); v != nil && len(v.C) == 1 {
+						idx := ex.toIndex(ex.eval(fr, st, ia.Index))
+						return &Value{T: in.Type(), C: []*Term{tb.Select(v.C[0], idx)}}
+					}
+				}
 			}
 		}
 		ex.nilCheck(st, p, in, "load")
@@ -1109,4 +1128,15 @@ func (ex *Exec) floatBinop(op token.Token, x, y *Value, rt types.Type) *Value {
 		return ex.boolV(tb.Raw("fp.geq", SBool, a, b))
 	}
 	panic("floatBinop " + op.String())
+}
+
+
+// isElemOrFieldStore: a store through an element or field address (not the plain assignment
+// of a local variable, which NaiveForm also renders as a Store)
+func isElemOrFieldStore(in *ssa.Store) bool {
+	switch in.Addr.(type) {
+	case *ssa.IndexAddr, *ssa.FieldAddr:
+		return true
+	}
+	return false
 }
